@@ -79,16 +79,22 @@ class G(object):
         out += ['else:'] + gen.ind(self.block(depth + 1))
       return out
     if r < 0.72:
-      return ['for i%d in range(%s):' % (depth, self.T('n'))] + gen.ind(self.block(depth + 1))
+      out = ['for i%d in range(%s):' % (depth, self.T('n'))] + gen.ind(self.block(depth + 1))
+      if self.r.random() < 0.4:
+        out += ['else:'] + gen.ind(self.block(depth + 1))
+      return out
     if r < 0.8:
       return ['with CM(%s):' % self.T('1')] + gen.ind(self.block(depth + 1))
     if r < 0.88:
       return (['try:'] + gen.ind(self.block(depth + 1) + ['if %s > 1:' % self.T('x'), '  raise UErr(%s)' % self.T()]) +
-              ['except UErr:'] + gen.ind(self.block(depth + 1)))
+              ['except UErr:'] + gen.ind(self.block(depth + 1)) +
+              (['else:'] + gen.ind(self.block(depth + 1)) if self.r.random() < 0.3 else []) +
+              (['finally:'] + gen.ind(self.block(depth + 1)) if self.r.random() < 0.3 else []))
     if r < 0.94:
       return ['hp(%s, %s)' % (self.opnd(), self.opnd())]
     if r < 0.97 and self.lazy:
-      return ['w%d = 0' % depth, 'while w%d < n:' % depth] + gen.ind(['w%d = w%d + 1' % (depth, depth)] + self.block(depth + 1))
+      return (['w%d = 0' % depth, 'while w%d < n:' % depth] + gen.ind(['w%d = w%d + 1' % (depth, depth)] + self.block(depth + 1)) +
+              (['else:'] + gen.ind(self.block(depth + 1)) if self.r.random() < 0.5 else []))
     return ['if %s > 3:' % self.T('x'), '  return (%s, %s)' % (self.opnd(), self.opnd())]
 
   def block(self, depth):
